@@ -499,8 +499,9 @@ def file_obs(F, S, index):
     return out
 
 
-def observe(build, env, name, src, work, want_modes=None):
-    """run every mode on one source filesystem; returns (lines, info)"""
+def observe(build, env, name, src, work, want_modes=None, wide=None):
+    """run every mode on one source filesystem; returns (lines, info).  wide: entry of the boundary catalogue this filesystem
+    was built for (its targets, its hole and the non-zero blocks of the source with their classes go into the layout observation)"""
     P = project_any(src)
     info = {"image": name}
     if "fatal" in P or P.get("reader_err"):
@@ -594,6 +595,9 @@ def observe(build, env, name, src, work, want_modes=None):
             index = {}
             for b in sorted(S.nz, reverse=True):
                 index[S.nz[b]] = b
+        l["_layout"]["targets"] = list(wide["targets"]) if wide else []
+        l["_layout"]["hole"] = wide["hole"] if wide else 0
+        l["_layout"]["srcnz"] = [{"b": b, "c": cls[b]} for b in sorted(S.nz) if b < nblocks] if wide else []
         for key, m in (("raw", rm), ("conv", cm)):
             F = files[m]
             l["_layout"][key] = file_obs(F, S, index)
@@ -618,6 +622,7 @@ LAYOUT_WHAT = {"LayoutMatches": "the qcow2 file is not the file the writer model
                "RawMatches": "the direct raw image is not the file the raw writer of the specification builds (position / content of a block)",
                "ConvMatches": "the converted image is not the file the reader of the specification builds: a cluster was copied to a position other than (l1_index * l2_size + l2_index) << cluster_bits evaluated in 64 bits, or with other content",
                "LConvertEqualsRaw": "on the blocks the real -Q image maps, the model's converted file differs from its raw file"}
+COVER_INV = ("Covers", "CoversHole")
 LAYOUT_INV = ("WriterSane", "RefcountExact", "L2TablesDistinct", "LMapExact", "LConvertEqualsRaw", "LayoutMatches", "RawMatches", "ConvMatches")
 
 
@@ -634,24 +639,33 @@ def layout_obs(q, mapping, bs, nblocks):
             "file_clusters": q["file_clusters"], "nb": nblocks, "l2n": bs // 8, "rpb": bs // 2, "l1n": q["l1n"], "cbits": q["cbits"]}
 
 
+class LayoutBroken(Exception):
+    """TLC could not decide a layout trace (evaluation error, model stuck, catalogue not realised)"""
+
+
 def validate_layout(obs, work, tag, covers=False):
-    """returns (ok, TlcResult); dies when TLC itself fails"""
+    """returns (ok, TlcResult); raises LayoutBroken when TLC itself fails"""
     cfg = os.path.join(work, "layout_%s.cfg" % tag)
     with open(cfg, "w") as f:
         f.write("SPECIFICATION LSpec\nCONSTANTS\n  NB = %d\n  L2N = %d\n  RPB = %d\n  CacheN = %d\n  MClasses = {\"free\"}\n  AllModes = {FALSE}\n"
                 % (obs["nb"], obs["l2n"], obs["rpb"], min(obs["l1n"], 512)))
         f.write("".join("  %s = FALSE\n" % d for d in DEVS))
         f.write("  MaxC <- ObsMaxC\n  CBits <- ObsCBits\n")
-        f.write("".join("INVARIANT %s\n" % i for i in LAYOUT_INV + (("Covers",) if covers else ())))
+        f.write("".join("INVARIANT %s\n" % i for i in LAYOUT_INV + (COVER_INV if covers else ())))
         f.write("POSTCONDITION LayoutDone\nCHECK_DEADLOCK FALSE\n")
     tp = os.path.join(work, "layout_%s.ndjson" % tag)
     with open(tp, "w") as f:
-        f.write(json.dumps({k: obs[k] for k in ("map", "l1", "rt", "file_clusters", "cbits", "raw", "conv", "raw_blocks", "conv_blocks")}) + "\n")
+        f.write(json.dumps({k: obs[k] for k in ("map", "l1", "rt", "file_clusters", "cbits", "raw", "conv", "raw_blocks", "conv_blocks", "targets", "hole", "srcnz")}) + "\n")
     r = T.tlc(os.path.join(SPEC, "Trace_E2imageLayout.tla"), cfg, workers=1, timeout=900, env={"TRACE": tp}, xmx="3g")
+    m = re.search(r"The invariant of (\w+) is equal to FALSE", r.out)      # an invariant that fails in the initial state (lib/tlc.py files it under errors)
+    if m and r.violated is None:
+        r.violated, r.error = m.group(1), None
     if r.error or r.violated == "POSTCONDITION" or (r.rc != 0 and r.violated is None):
-        die_broken("TLC failed on the layout trace %s: %s\n%s" % (tag, r.error or r.violated, r.out[-2500:]))
-    if r.violated == "Covers":
-        die_broken("the filesystem %s does not realise the boundary catalogue of E2image.tla (a target block of WidthTargets is not in the image)" % tag)
+        raise LayoutBroken("TLC failed on the layout trace %s: %s\n%s" % (tag, r.error or r.violated, r.out[-2500:]))
+    if r.violated is not None and r.violated not in LAYOUT_INV + COVER_INV:
+        raise LayoutBroken("TLC reports %s on the layout trace %s\n%s" % (r.violated, tag, r.out[-2500:]))
+    if r.violated in COVER_INV:
+        raise LayoutBroken("the filesystem of %s does not realise the boundary catalogue of E2image.tla (%s: a target block is not non-zero metadata of the source, or the hole is missing): targets %s hole %s" % (tag, r.violated, obs.get("targets"), obs.get("hole")))
     return r.violated is None, r
 
 
@@ -775,7 +789,7 @@ def run(tier):
 
             def one(a):
                 n, p = a
-                return observe(build, env, n, p, work)
+                return observe(build, env, n, p, work, wide=wide.get(n))
             with cf.ThreadPoolExecutor(max_workers=4) as ex:
                 for ls, info in ex.map(one, imgs):
                     lines += ls
@@ -827,28 +841,45 @@ def run(tier):
                 vd.violation(key, what, {"image": l["image"], "mode": l["mode"], "line": strip_line(l), "first_diff": l.get("first_diff"), "detail": {k: l.get(k) for k in ("msg", "qbad", "tool_diff") if l.get(k)}})
             # second binding: the literal writer / reader model, run with the real constants, must build the very files e2image wrote
             # (cost grows with mapped blocks x file clusters; quick takes the -Q files up to LAYOUT_QUICK_CLUSTERS clusters, thorough also the -Qa files)
+            # an image the line trace already convicts may be anything (overlapping clusters, a run that failed): when the layout model
+            # cannot be stepped over it, that is not a broken check
+            convicted = {l["image"] for l, _, _ in confirmed}
             for n in wide:
                 for l in lines:
-                    if l["image"] == n and l["mode"] == "qcow" and l["rc"] == 0 and not l.get("_layout"):
-                        die_broken("the -Q image of %s is outside the assumptions of the layout model (refcount table clusters %d, %d mapped blocks)" % (n, l["q"]["rtc"], l["q"]["mapped"]))
+                    if l["image"] == n and l["mode"] == "qcow" and not l.get("_layout") and n not in convicted:
+                        die_broken("the -Q image of %s is outside the assumptions of the layout model (rc %d, refcount table clusters %d, %d mapped blocks)" % (n, l["rc"], l["q"]["rtc"], l["q"]["mapped"]))
             lay = [l for l in lines if l.get("_layout") and l["rc"] == 0 and
                    (tier == "thorough" or (l["mode"] == "qcow" and (l["q"]["file_clusters"] <= LAYOUT_QUICK_CLUSTERS or l["image"] in wide)))]
+            lay_undecided = []
+
+            def lay_check(l, obs, tag):
+                try:
+                    return validate_layout(obs, work, tag, covers=l["image"] in wide and l["mode"] == "qcow")
+                except LayoutBroken as e:
+                    if l["image"] not in convicted:
+                        die_broken(str(e))
+                    lay_undecided.append(l["id"])
+                    return None, None
 
             def lay_one(l):
-                return l, validate_layout(l["_layout"], work, l["id"].replace("/", "_"), covers=l["image"] in wide and l["mode"] == "qcow")
+                return l, lay_check(l, l["_layout"], l["id"].replace("/", "_"))
             lay_ok = lay_bad = 0
             lay_walls = {}
             with cf.ThreadPoolExecutor(max_workers=4) as ex:
                 for l, (ok, r) in ex.map(lay_one, lay):
+                    if r is None:
+                        continue
                     lay_walls[l["id"]] = round(r.wall, 1)
                     ev.cov["states"] += r.distinct
                     ev.cov["transitions"] += r.generated
                     if ok:
                         lay_ok += 1
                         continue
-                    ls2, _ = observe(build, env, l["image"], paths[l["image"]], work, want_modes={"q2r" if l["mode"] == "qcow" else "qall2r"})
+                    ls2, _ = observe(build, env, l["image"], paths[l["image"]], work, want_modes={"q2r" if l["mode"] == "qcow" else "qall2r"}, wide=wide.get(l["image"]))
                     l2 = [x for x in ls2 if x["mode"] == l["mode"]][0]
-                    ok2, r2 = validate_layout(l2["_layout"], work, "confirm") if l2.get("_layout") else (True, None)
+                    ok2, r2 = lay_check(l, l2["_layout"], l["id"].replace("/", "_") + "_confirm") if l2.get("_layout") else (True, None)
+                    if ok2 is None:
+                        continue
                     if not ok2:
                         lay_bad += 1
                         vd.violation("layout|%s|%s" % (l["id"], r2.violated),
@@ -857,7 +888,7 @@ def run(tier):
                                                                                           for k in ("map", "l1", "rt", "raw", "conv", "file_clusters", "nb", "l2n", "rpb", "cbits")}})
                     else:
                         lay_ok += 1
-            ev.cov["layout_traces"] = {"wall_s": lay_walls, "run": len(lay), "accepted": lay_ok, "what": "literal writer / reader model stepped with the real constants over the mapped blocks; every block's data cluster, L1 and refcount table entries and the file size equal the real qcow2 file; position and content of every non-zero block of the direct raw file and of the converted file equal RawFile / ConvFile (offsets evaluated with the stated widths)"}
+            ev.cov["layout_traces"] = {"wall_s": lay_walls, "run": len(lay), "accepted": lay_ok, "rejected": lay_bad, "undecided_on_images_already_in_violation": sorted(set(lay_undecided)), "what": "literal writer / reader model stepped with the real constants over the mapped blocks; every block's data cluster, L1 and refcount table entries and the file size equal the real qcow2 file; position and content of every non-zero block of the direct raw file and of the converted file equal RawFile / ConvFile (offsets evaluated with the stated widths)"}
             ev.cov["phase_wall_s"]["layout"] = round(time.time() - ev.t0, 1)
             mc = mc_future.result()
             ev.cov["phase_wall_s"]["model_checking_done"] = round(time.time() - ev.t0, 1)
@@ -881,9 +912,9 @@ def run(tier):
             "images_with_l2_tables_beyond_virtual_size": sorted({l["id"] for l in lines if l["q"]["l2_beyond_virtual"] > 0 and l["mode"] in ("qcow", "qall")}),
             "images_flushing_the_l2_cache": sorted({l["id"] for l in lines if l["q"]["l2_tables"] > 512 and l["mode"] in ("qcow", "qall")})}
         ev.cov["width_boundaries"] = {
-            "catalogue": {n: {"bs": e["bs"], "blocks": e["blocks"], "targets": e["targets"]} for n, e in wide.items()}, "byte_offsets": ["2^%d" % b for b in cat["boundary_bits"]],
+            "catalogue": {n: {"kind": e["kind"], "bs": e["bs"], "blocks": e["blocks"], "targets": e["targets"], "hole_blocks": e["hole"]} for n, e in wide.items()}, "byte_offsets": ["2^%d" % b for b in cat["boundary_bits"]],
             "mapped_blocks_at_or_beyond_2^32": {l["id"]: sum(1 for b, c in l["_layout"]["map"] if b * l["geo"]["bs"] >= 1 << 32) for l in lines if l["image"] in wide and l.get("_layout")},
-            "what": "TLC (invariant Covers of Trace_E2imageLayout) confirms that every target block is mapped by the -Q image of the filesystem"}
+            "what": "TLC (invariants Covers / CoversHole of Trace_E2imageLayout) confirms that every target block is non-zero metadata of the source (class from the independent reader) and that the hole kind has two consecutive imaged blocks at least 2^31 bytes apart"}
         ev.cov["rule"] = ("one evaluation = one run of e2image (image x mode) judged by TLC; non-trivial = (source image, block class) pairs with at least one "
                           "non-zero block of that class in a metadata-image run, i.e. places where leaving the class out would be seen")
         for l in lines[:3]:
